@@ -343,6 +343,17 @@ def replay_ci(p):
     import math
     from pyab_experiment.utils import stats
     n, pp, conf, method = p["n"], p["p"], p["confidence"], p["method"]
+    for alt in p.get("search_confidences") or []:
+        # the solver's z may not be reachable exactly through probit: the same (n, p) is tried on a ladder of confidences
+        # (and of sample sizes) and the first ill-formed interval is reported
+        for n_alt in (n, 1, 10 ** 5, 10 ** 9):
+            oa = outcome_of(lambda: stats.confidence_interval(n_alt, pp, alt, method))
+            if oa[0] != "value":
+                return {"reproduced": True, "expected": "an interval", "observed": "n=%r p=%r confidence=%r: %s" % (n_alt, pp, alt, show(oa))}
+            la, ha = oa[1]
+            if isinstance(la, complex) or isinstance(ha, complex) or la != la or ha != ha or not (la <= ha):
+                return {"reproduced": True, "expected": "a real interval with lower <= upper",
+                        "observed": "n=%r p=%r confidence=%r: %r" % (n_alt, pp, alt, (la, ha))}
     o = outcome_of(lambda: stats.confidence_interval(n, pp, conf, method))
     if o[0] != "value":
         return {"reproduced": True, "expected": "an interval", "observed": show(o)}
